@@ -97,6 +97,11 @@ def extract():
         c[n] = _str_const(s, n, rel)
     for n in ("segmentSeparator", "escapeChar", "leftBracket", "rightBracket", "leftSquareBracket", "rightSquareBracket"):
         c[n] = _char_const(s, n, rel)
+    # float32 fields read from strings: is the range checked on the number as written (F32)?
+    mm = re.search(r"func validateAndSetValue\(.*?\n}\n", s, re.S)
+    if not mm:
+        raise RuntimeError("validateAndSetValue no longer found in " + rel)
+    c["f32_range_on_text"] = bool(re.search(r"reflect\.Float32", mm.group(0)) and re.search(r"ParseFloat\(str, 64\)", mm.group(0)))
     m = re.search(r"structRequiredCache\s*=\s*make\(map\[(\w+(?:\.\w+)?)\]requiredCacheValue\)", s)
     if not m:
         raise RuntimeError("structRequiredCache no longer found in " + rel)
@@ -155,6 +160,8 @@ def regen():
         "Definition gen_required_memo_per_tag : bool := %s." % b(c["required_memo_per_tag"]),
         "(* the memo of parsed slice defaults is keyed by (read as segments / as JSON, text) *)",
         "Definition gen_default_memo_per_reading : bool := %s." % b(c["default_memo_per_reading"]),
+        "(* a float32 field read from a string has its range checked on the number as written *)",
+        "Definition gen_f32_range_on_text : bool := %s." % b(c["f32_range_on_text"]),
         "(* no package-level map is handed out as the value of a field *)",
         "Definition gen_empty_map_private : bool := %s." % b(c["empty_map_private"]),
         "(* rest/httpx.Parse: the passes in source order; the validator comes after the last one *)",
